@@ -18,6 +18,10 @@ TrInit == tr \in 1..NTraces /\ l = 1
 Silent == UNCHANGED <<tr, l>>
 ASSUME TLCSet(1, [i \in 1..NTraces |-> 0]) /\ TLCSet(2, [i \in 1..NTraces |-> "-"])
 HWMark == LET h == TLCGet(1) IN IF l > h[tr] THEN TLCSet(1, [h EXCEPT ![tr] = l]) ELSE TRUE
+\* TLC evaluates the state CONSTRAINT of a successor BEFORE the ACTION_CONSTRAINT, so a trace spec that has an
+\* ACTION_CONSTRAINT must advance the high-water mark there (as its LAST conjunct, on the primed variables) and not in
+\* the CONSTRAINT: otherwise a final step that only the action constraint rejects would still count as consumed.
+HWMarkA == LET h == TLCGet(1) IN IF l' > h[tr'] THEN TLCSet(1, [h EXCEPT ![tr'] = l']) ELSE TRUE
 InvFail(name) == LET h == TLCGet(2) IN TLCSet(2, [h EXCEPT ![tr] = name]) /\ FALSE
 CheckInv(name, pred) == pred \/ InvFail(name)
 Report == JsonSerialize("verdict.json", [hw |-> TLCGet(1), fails |-> TLCGet(2)])
